@@ -36,7 +36,9 @@ RULE = ("(i) all 243 styles (9 text x 9 background x 3 intensity) through AnsiWr
         "AnsiWriter<Vec<u8>>; a 288-case subset through child processes (env none / CLICOLOR_FORCE=1 / "
         "NO_COLOR=1, pty and pipe). (iv) patterns WITHOUT a trailing newline (`{m}`, `{h({l} {m})}`, "
         "`{h({l} {m}{n})}`) x 27 environments x target x tty_only x pty/pipe: the bytes must be on the "
-        "stream when append returns. non-trivial = a process-level case or a style with at least one "
+        "stream when append returns. (v) 24 configurations x 4 children: one process with a console appender on EACH "
+        "stream (built in either order) where exactly one of stdout / stderr is a pty: each stream must carry what "
+        "a process with only that appender writes. non-trivial = a process-level case or a style with at least one "
         "attribute; distinct = distinct case line")
 ASSUMPTIONS = [
     "unix code path (isatty via libc); the Windows console path is not exercised",
@@ -550,4 +552,46 @@ def extra_checks(ctx, cases_, impl_lines, model_lines_):
             corr = d
     if corr is not None:
         raise vc.Broken("corr:C18/stream-bytes", corr)
-    return []
+    return two_appender_checks(ctx)
+
+
+def two_appender_checks(ctx):
+    """One process with a console appender on EACH stream (built in either order), the streams differing
+    in being a terminal: each stream must carry exactly what a process with only that appender writes
+    (which the per-case comparison ties to the model).  A decision cached per process instead of per
+    stream (isatty, colour) shows here and nowhere else."""
+    vc = ctx["vc"]
+    exe = ctx["vh"]
+    rng = vc.Rng(ctx["seed"] * 31 + 5)
+    envs = [(None, None, None), (None, None, None), ("1", None, None), (None, "1", None), (None, None, "0"),
+            (None, "0", "1")]
+    jobs = []
+    for env in envs:
+        for tty_only in (0, 1):
+            for (o, e) in ((1, 0), (0, 1)):
+                chunks = chunks_hl() if rng.chance(2, 3) else chunks_plain()
+                lv = rng.range(1, 5)
+                for tgt in (0, 1, 2, 3):
+                    jobs.append(pcase(env, tgt, tty_only, o, e, chunks, lv))
+    with concurrent.futures.ThreadPoolExecutor(max_workers=12) as ex:
+        got = list(ex.map(lambda c: run_child(exe, c), jobs))
+    res = []
+    for k in range(0, len(jobs), 4):
+        try:
+            r0, r1, r2, r3 = (vc.parse(g) for g in got[k:k + 4])
+        except Exception:
+            res.append(("two console appenders in one process: a child did not finish normally: %r" % (got[k:k + 4],),
+                        {"case": describe(jobs[k])}))
+            break
+        want = [r0[0], r1[1]]
+        for name, r in (("stdout appender built first", r2), ("stderr appender built first", r3)):
+            if [r[0], r[1]] != want:
+                res.append(("two console appenders in one process (%s): streams (stdout, stderr) carry %r; a process with "
+                            "only the stdout appender writes %r to stdout and one with only the stderr appender "
+                            "writes %r to stderr" % (name, [bytes(r[0]), bytes(r[1])], bytes(r0[0]), bytes(r1[1])),
+                            {"case": describe(jobs[k]), "order": name}))
+                break
+        if res:
+            break
+    ctx.setdefault("xcheck", {})["two_appender_processes"] = len(jobs)
+    return res
